@@ -224,6 +224,14 @@ func (self *BinaryConv) unmarshalSingular(ctx context.Context, resp http.Respons
 		message := (*fd).Message()
 		comma := false
 		start := p.Read
+		if l < 0 || start+l > len(p.Buf) {
+			return wrapError(meta.ErrRead, "invalid message length", nil)
+		}
+		// bound the buffer by the end of this message: a trailing repeated/map field must not
+		// run into the following field of the parent
+		whole := p.Buf
+		p.Buf = whole[:start+l]
+		defer func() { p.Buf = whole }()
 
 		*out = json.EncodeObjectBegin(*out)
 
